@@ -76,3 +76,17 @@ def storm(rounds):
         return {"rounds": len(lines), "consumed": r["consumed"], "problems": problems, "sample": lines[:1]}
     finally:
         shutil.rmtree(d, ignore_errors=True)
+
+
+def fire_walk_mc():
+    """spec/EventFire.tla: Fire's unlocked walk against concurrent unsubscribes; copy-on-unsubscribe holds, in place is the negative control."""
+    out = {}
+    for copy in (True, False):
+        cfg = vlib.cfg_text(dict(NListeners=4, CopyOnUnsub=copy), spec="Spec", invariants=["WalkReachesAllLive"])
+        r = vlib.tlc_check("EventFire", cfg, timeout=120)
+        out["copy_on_unsubscribe" if copy else "in_place_negative_control"] = {"complete": r.get("complete"), "violated": r.get("violated"), "distinct": r.get("distinct")}
+    if not out["copy_on_unsubscribe"]["complete"]:
+        raise vlib.Inconclusive("TLC did not complete EventFire: %s" % out)
+    if "WalkReachesAllLive" not in str(out["in_place_negative_control"]["violated"]):
+        raise vlib.Inconclusive("EventFire negative control (in-place unsubscribe) does not violate WalkReachesAllLive")
+    return out
